@@ -9,7 +9,7 @@ func init() {
 	register("C36", []string{"."}, runC36)
 	register("C37", []string{"."}, runC37)
 	propExplain["C36"] = "Decides structural clauses of C36: ingested tables become visible only through the commit pipeline (ingestApply is referenced only from DB.ingest's apply callback; link ⊢ attach ⊢ provider sync ⊢ AllocateSeqNum); the caller's original files are removed only after AllocateSeqNum and only on the success edge, and the files linked by this ingest are cleaned up on the failure edge; an excise is registered in ongoingExcises under DB.mu and unregistered only after the pipeline published it; a flushable ingest writes and syncs its WAL record (fatal on error) before the ingested flushable is queued and the read state refreshed. Does not decide equivalence to a batch (behaviour)."
-	propExplain["C37"] = "Decides structural clauses of C37: an eventually-file-only snapshot reads its sequence number, waits for overlapping excises and registers itself (snapshot list or version reference) in one DB.mu region (C03.R1); the transition stores the version into the snapshot before the underlying sequence-number snapshot is closed, all under the EFOS mutex; the version reference handed to the transition is stored or released on every path (C04.P3); transitions are attempted only after a flush refreshed the read state through a successful MANIFEST update. Does not decide protected-range semantics."
+	propExplain["C37"] = "Decides structural clauses of C37: an eventually-file-only snapshot reads its sequence number, waits for overlapping excises and registers itself (snapshot list or version reference) in one DB.mu region (C03.R1); the transition stores the version into the snapshot before the underlying sequence-number snapshot is closed, all under the EFOS mutex; the version reference handed to the transition is stored or released on every path (C04.P3); transitions are attempted only after a flush refreshed the read state through a successful MANIFEST update. (O4) at creation every entry of the flushable queue is examined for overlap with the snapshot's key ranges before the snapshot may start out file-only (no iteration of that loop ends without the overlap call). Does not decide protected-range semantics."
 	propTechnique["C36"] = "who-may-call, SSA error-gated dominance, lock-region, obligation-as-fact"
 	propTechnique["C37"] = "SSA lock-region and ordering dataflow, resource pairing"
 }
@@ -150,6 +150,25 @@ func runC36(c *Ctx) {
 }
 
 func runC37(c *Ctx) {
+	// C37.O4: an EFOS starts out file-only only if NO queued flushable may overlap its key ranges.
+	// The loop over the flushable queue examines every entry: on each back edge of that loop the
+	// entry's computePossibleOverlaps has been called (no `continue` that skips a kind of flushable
+	// — a queued flushable ingest is visible but not yet part of the pinned version).
+	if fn := c.Fn("C37.O4", "p.(*DB).makeEventuallyFileOnlySnapshot"); fn != nil {
+		check := MethodOn("computePossibleOverlaps", "")
+		sites := instrs(fn, check)
+		if len(sites) == 0 {
+			c.Unresolved("C37.O4", "computePossibleOverlaps not called in makeEventuallyFileOnlySnapshot")
+		} else {
+			fl := NewFlow(c.P).After("overlap-examined", check) // absent at the loop header (the entry edge lacks it), hence per iteration
+			fl.MaxDepth = 0
+			res := fl.Analyze(fn, emptyState())
+			c.noteFlow(fl)
+			for _, in := range sites {
+				c.RequireOnBackEdges("C37.O4", res, in, "every queued flushable is examined for overlap with the snapshot's key ranges", []string{"overlap-examined"})
+			}
+		}
+	}
 	if fn := c.Fn("C37.O1", "p.(*EventuallyFileOnlySnapshot).transitionToFileOnlySnapshot"); fn != nil {
 		vers := c.Field("C37.O1", "p.EventuallyFileOnlySnapshot.mu.vers")
 		fl := NewFlow(c.P).After("held:es.mu", MethodOn("Lock", "recv.mu")).KillAfter("held:es.mu", MethodOn("Unlock", "recv.mu"))
